@@ -54,7 +54,11 @@ def run(ctx):
     for kind in ("seq", "vec", "map"):
         g, res = objcheck.tlc_graph(ctx, "MC_Ownership.tla", "Ownership_%s_%d.cfg" % (kind, n), ignore_untaken=NA[kind], workers=4)
         for cls in CLASSES:
-            objcheck.replay_cover(ctx, g, [tok(init(n))], exe, "%s/%s" % (kind, cls), [kind, cls, str(n)], keyfn, walks=walks)
+            objcheck.replay_cover(ctx, g, [tok(init(n))], exe, "%s/%s" % (kind, cls), [kind, cls, str(n)], keyfn, walks=walks,
+                                  pairs=(20000 if ctx.tier == "quick" else 400000))
+    # the small value classes (pairs, tokenizers, URLs, regexps): SmallObj.tla lifecycles with per-script heap balance
+    from checks import c05
+    c05.small_objects(ctx)
     ctx.cov["exhaustive"] = True
     ctx.cov["rule"] = "every transition of Ownership.tla in scope, once per container kind and class, with heap balance per script"
     ctx.assumptions += ["objects are spif_str; ASan build of the current tree (clang -O1)"]
